@@ -6,16 +6,15 @@ package h2c
 
 //@ func expandMessageXMD
 //@   props C15
-//@   option digits
 //@   requires hFunc == 5
 //@   split len(out) in 48..96 step 48
 //@   split case len(domainSeparator) == 0
 //@   split case len(domainSeparator) > 255
 //@   ensures (len(domainSeparator) == 0) <==> (result != nil)
-//@   ensures (len(domainSeparator) >= 1 && len(domainSeparator) <= 255) ==> os2ip(out[0:32]) == hashint(xmd_b1(bstr(domainSeparator), len(domainSeparator), bstr(message), len(out)), 32)
-//@   ensures (len(domainSeparator) >= 1 && len(domainSeparator) <= 255 && len(out) == 48) ==> os2ip(out[32:48]) == hashint(xmd_bi(bstr(domainSeparator), len(domainSeparator), bstr(message), 48, xmd_b1(bstr(domainSeparator), len(domainSeparator), bstr(message), 48), 2), 16)
-//@   ensures (len(domainSeparator) >= 1 && len(domainSeparator) <= 255 && len(out) == 96) ==> os2ip(out[32:64]) == hashint(xmd_bi(bstr(domainSeparator), len(domainSeparator), bstr(message), 96, xmd_b1(bstr(domainSeparator), len(domainSeparator), bstr(message), 96), 2), 32) && os2ip(out[64:96]) == hashint(xmd_bi(bstr(domainSeparator), len(domainSeparator), bstr(message), 96, xmd_bi(bstr(domainSeparator), len(domainSeparator), bstr(message), 96, xmd_b1(bstr(domainSeparator), len(domainSeparator), bstr(message), 96), 2), 3), 32)
-//@   ensures (len(domainSeparator) > 255) ==> os2ip(out[0:32]) == hashint(xmd_b1(xmd_bigdst(bstr(domainSeparator)), 32, bstr(message), len(out)), 32)
-//@   ensures (len(domainSeparator) > 255 && len(out) == 48) ==> os2ip(out[32:48]) == hashint(xmd_bi(xmd_bigdst(bstr(domainSeparator)), 32, bstr(message), 48, xmd_b1(xmd_bigdst(bstr(domainSeparator)), 32, bstr(message), 48), 2), 16)
-//@   ensures (len(domainSeparator) > 255 && len(out) == 96) ==> os2ip(out[32:64]) == hashint(xmd_bi(xmd_bigdst(bstr(domainSeparator)), 32, bstr(message), 96, xmd_b1(xmd_bigdst(bstr(domainSeparator)), 32, bstr(message), 96), 2), 32) && os2ip(out[64:96]) == hashint(xmd_bi(xmd_bigdst(bstr(domainSeparator)), 32, bstr(message), 96, xmd_bi(xmd_bigdst(bstr(domainSeparator)), 32, bstr(message), 96, xmd_b1(xmd_bigdst(bstr(domainSeparator)), 32, bstr(message), 96), 2), 3), 32)
+//@   ensures (len(domainSeparator) >= 1 && len(domainSeparator) <= 255) ==> hashbytes(out[0:32], xmd_b1(bstr(domainSeparator), len(domainSeparator), bstr(message), len(out)), 0)
+//@   ensures (len(domainSeparator) >= 1 && len(domainSeparator) <= 255 && len(out) == 48) ==> hashbytes(out[32:48], xmd_bi(bstr(domainSeparator), len(domainSeparator), bstr(message), 48, xmd_b1(bstr(domainSeparator), len(domainSeparator), bstr(message), 48), 2), 0)
+//@   ensures (len(domainSeparator) >= 1 && len(domainSeparator) <= 255 && len(out) == 96) ==> hashbytes(out[32:64], xmd_bi(bstr(domainSeparator), len(domainSeparator), bstr(message), 96, xmd_b1(bstr(domainSeparator), len(domainSeparator), bstr(message), 96), 2), 0) && hashbytes(out[64:96], xmd_bi(bstr(domainSeparator), len(domainSeparator), bstr(message), 96, xmd_bi(bstr(domainSeparator), len(domainSeparator), bstr(message), 96, xmd_b1(bstr(domainSeparator), len(domainSeparator), bstr(message), 96), 2), 3), 0)
+//@   ensures (len(domainSeparator) > 255) ==> hashbytes(out[0:32], xmd_b1(xmd_bigdst(bstr(domainSeparator)), 32, bstr(message), len(out)), 0)
+//@   ensures (len(domainSeparator) > 255 && len(out) == 48) ==> hashbytes(out[32:48], xmd_bi(xmd_bigdst(bstr(domainSeparator)), 32, bstr(message), 48, xmd_b1(xmd_bigdst(bstr(domainSeparator)), 32, bstr(message), 48), 2), 0)
+//@   ensures (len(domainSeparator) > 255 && len(out) == 96) ==> hashbytes(out[32:64], xmd_bi(xmd_bigdst(bstr(domainSeparator)), 32, bstr(message), 96, xmd_b1(xmd_bigdst(bstr(domainSeparator)), 32, bstr(message), 96), 2), 0) && hashbytes(out[64:96], xmd_bi(xmd_bigdst(bstr(domainSeparator)), 32, bstr(message), 96, xmd_bi(xmd_bigdst(bstr(domainSeparator)), 32, bstr(message), 96, xmd_b1(xmd_bigdst(bstr(domainSeparator)), 32, bstr(message), 96), 2), 3), 0)
 //@   modifies out
